@@ -253,7 +253,7 @@ PROPS = {
         "rules": R(r(DL.lk0_blocking_acquisitions, only=r"ChanneledWrapper|StoreImpl\.subscriber-list|all-acquisitions|floor"), X.ch_channeled, C.ch1_arm_purity, C.ch2_result_tells_enqueued, C.ch4_retry_identity,
                    r(T.st4_callbacks_live_in_the_loop, only=r"channeled|NOTIFY|floor"), r(S.su1_mutators, drop=r"append:|floor:push"),
                    S.lc3_release_under_list_lock, T.st1_stop_is_close_plus_join, r(S.cb1_callbacks_hold_no_reentrant_lock, only=r"no-list-lock-in-on_notify|floor"),
-                   r(S.su3_shutdown_release, only=r"every-exit-releases|floor:clear"), r(DL.l1_lock_order, only=r"re-entrant-lock|lock-order-cycle", name="L1")),
+                   r(S.su3_shutdown_release, only=r"every-exit-releases|floor:clear"), r(DL.l1_lock_order, only=r"re-entrant-lock|lock-order-cycle", name="L1"), M.n4_notify_phase_not_bypassed, r(PI3_NOTIFY, name="PI3")),
         "explanation": "Static decision: the user's subscriber lives only in the spawned thread's delivery loop (R1,R4,ST4); the forwarder enqueues each notification once, unmodified, under its slot lock and never after release (R3); the channel wrapper never blocks under a drop policy and delivers the newest under DropOldest (CH1,CH2,CH4); release drops the sender, enqueues nothing, then joins - reached atomically with removal from unsubscribe and from the shutdown release (R2,SU2,SU3); defaults are DEFAULT_CAPACITY/BlockOnFull (R5). stop() closes and joins on every path (ST1). Forwarders are only ever called from the reducer thread's notify loop, so each channel sees the notifications in reduce order (ST4), and a forwarder leaves the list only through the releasing removals - never by the list being taken or overwritten as a whole, which would skip the drop-sender-and-join (SU1).",
         "not_decided": ["run-time thread identity", "timing"],
     },
@@ -268,7 +268,7 @@ PROPS = {
     },
     "C12": {
         "rules": R(r(DL.lk0_blocking_acquisitions, only=r"StoreImpl\.(middleware-list|sender-slot|pool-slot)|all-acquisitions|floor"), r(P.pi6_action_identity, only=r"HOOK"), M.mw_table, M.mw5_hooks_on_every_action, P.mw1_hook_state_args,
-                   r(E.e2_drain, only=r"MW3:|drain-until-empty|variant-covered|effect-phase-on-every-pass|count:"), E.e7_vector_untouched_between_hooks_and_drain,
+                   r(E.e2_drain, only=r"MW3:|drain-until-empty|variant-covered|wrapped-payload-called-once|effect-phase-on-every-pass|count:"), E.e7_vector_untouched_between_hooks_and_drain,
                    r(P.s1_single_writer, only=r"writers of the state cell|writer-is-reducer-thread|no-other-mutable-access"),
                    r(P.pi2_phase_order, only=r"order:(HOOK:before_reduce<REDUCE|REDUCE<HOOK:before_effect|HOOK:before_effect<HANDOVER|HOOK:before_dispatch<NOTIFY)"),
                    r(S.rg1_registration_order, only=r"middleware"), r(P.pi3_full_forward_iteration, only=r":HOOK:", name="PI3"),
